@@ -242,3 +242,167 @@ Proof.
   destruct (G _ _ _ _ inv_init r1_init E) as [m1 Hm1]. unfold c01_ok. now rewrite Hm1.
 Qed.
 
+
+(** * C09: the acceptor implies the monitor (when no restore overrides a failed probe) *)
+
+Lemma pend_back : forall s e s' r p' t,
+  step s e = Some s' -> nget (pend s') r = Some p' -> p_choice p' = Some t ->
+  nget (pend s) r = Some p' \/ e_k e = KLbClaim (p_lb p') (Some t) r.
+Proof.
+  intros s [tm a k] s' r p' t H Hp Hc. destruct k; step_inv H; proj_simp; auto.
+  all: norm; auto; try discriminate.
+  all: try (right; congruence).
+  inj_some. right. reflexivity.
+Qed.
+
+Record R9 (s : state) (m : mon9) : Prop := mkR9 {
+  r9_rot : forall lb b, nget (bals s) lb = Some b -> nget (q_rot m) lb = Some (b_rot b) /\ nget (q_idx m) lb = Some (b_idx b);
+  r9_pf : forall t x, In t (q_pf m) -> nget (tgts s) t = Some x -> t_st x <> THealthy;
+  r9_pend : forall r p t, nget (pend s) r = Some p -> p_choice p = Some t -> nget (q_pend m) r = Some (Some t)
+}.
+
+Lemma r9_init : R9 init m9_init.
+Proof. constructor; cbn; intros; try discriminate; contradiction. Qed.
+
+Lemma probe_next_false : forall st, probe_next st false <> THealthy.
+Proof. intros []; cbn; discriminate. Qed.
+
+Lemma sim9 : forall s e s' m pf', Inv s -> R9 s m -> step s e = Some s' -> rf_step (q_pf m) e = Some pf' ->
+  exists m', c09_step m e = Some m' /\ R9 s' m' /\ q_pf m' = pf'.
+Proof.
+  intros s [tm a k] s' m pf' HI HR H Hrf.
+  (* generic facts *)
+  assert (Grot : forall m', q_rot m' = q_rot m -> q_idx m' = q_idx m ->
+            (forall lb0 ts, k <> KLbNew lb0 ts) -> (forall lb0 hs, k <> KRotation lb0 hs) -> (forall lb0 t r, k <> KLbClaim lb0 (Some t) r) ->
+            forall lb b, nget (bals s') lb = Some b -> nget (q_rot m') lb = Some (b_rot b) /\ nget (q_idx m') lb = Some (b_idx b)).
+  { intros m' E1 E2 N1 N2 N3 lb b Hb. rewrite E1, E2.
+    destruct (bal_back _ _ _ _ _ H Hb) as [[b0 [Hb0 [_ [_ [[Hr|Hr] [Hi|[t [r [Hi _]]]]]]]]]|[_ [ts [Hk _]]]]; cbn in *.
+    - rewrite Hr, Hi. eapply (r9_rot _ _ HR); eauto.
+    - exfalso; eapply N3; eauto.
+    - exfalso; eapply N2; eauto.
+    - exfalso; eapply N2; eauto.
+    - exfalso; eapply N1; eauto. }
+  assert (Gpf : forall m', q_pf m' = q_pf m ->
+            (forall t ok prev new, k <> KProbeApply t ok prev new) -> (forall t orig new, k <> KStateSet t orig new) ->
+            forall t x, In t (q_pf m') -> nget (tgts s') t = Some x -> t_st x <> THealthy).
+  { intros m' E N1 N2 t x' Hin Hx. rewrite E in Hin.
+    destruct (tgt_back _ _ _ _ _ H Hx) as [[x [Hx0 [_ [_ [Hst|[[ok [prev Hk]]|[orig Hk]]]]]]]|[_ [? [? [_ [_ [_ [_ Hst]]]]]]]]; cbn in *.
+    - rewrite Hst. eapply (r9_pf _ _ HR); eauto.
+    - exfalso; eapply N1; eauto.
+    - exfalso; eapply N2; eauto.
+    - rewrite Hst. discriminate. }
+  assert (Gpend : forall m', q_pend m' = q_pend m -> (forall lb0 t r, k <> KLbClaim lb0 (Some t) r) ->
+            forall r p t, nget (pend s') r = Some p -> p_choice p = Some t -> nget (q_pend m') r = Some (Some t)).
+  { intros m' E N r p t Hp Hc. rewrite E. destruct (pend_back _ _ _ _ _ _ H Hp Hc) as [Hp0|Hk]; cbn in *.
+    - eapply (r9_pend _ _ HR); eauto.
+    - exfalso; eapply N; eauto. }
+  destruct k; try (cbn in Hrf; inversion Hrf; subst pf'; exists m; split; [reflexivity|]; split; [|reflexivity];
+                   constructor; [apply Grot|apply Gpf|apply Gpend]; auto; intros; discriminate).
+  - (* KLbNew *)
+    cbn in Hrf; inversion Hrf; subst pf'. unfold c09_step; cbn [e_k]. eexists; split; [reflexivity|]. split; [|reflexivity].
+    constructor; cbn [q_rot q_idx q_pf q_pend].
+    + intros lb0 b Hb. rewrite !nget_nset.
+      destruct (bal_back _ _ _ _ _ H Hb) as [[b0 [Hb0 [_ [_ [[Hr|Hr] [Hi|[t [r [Hi _]]]]]]]]]|[_ [ts [Hk [_ [_ [Hr Hi]]]]]]]; cbn in *; try discriminate.
+      * destruct (step_lbnew _ _ _ _ _ _ H) as [Hnone _].
+        destruct (Nat.eqb_spec lb0 lb) as [->|Hne]; [congruence|]. rewrite Hr, Hi. eapply (r9_rot _ _ HR); eauto.
+      * inversion Hk; subst. rewrite Nat.eqb_refl, Hr, Hi. auto.
+    + apply (Gpf (mkM9 (nset (q_rot m) lb []) (nset (q_idx m) lb 0) (q_pf m) (q_pend m))); auto; intros; discriminate.
+    + apply (Gpend (mkM9 (nset (q_rot m) lb []) (nset (q_idx m) lb 0) (q_pf m) (q_pend m))); auto; intros; discriminate.
+  - (* KLbClaim *)
+    cbn in Hrf; inversion Hrf; subst pf'. unfold c09_step; cbn [e_k]. destruct t as [t|].
+    + destruct (step_lbclaim_some _ _ _ _ _ _ _ H) as [b [Hb [Hin [Hnth [b' [Hb' [Hrot' Hidx']]]]]]].
+      destruct (r9_rot _ _ HR _ _ Hb) as [Q1 Q2]. rewrite Q1, Q2.
+      assert (Hk : (0 <? length (b_rot b)) = true) by (apply Nat.ltb_lt; destruct (b_rot b); [destruct Hin|cbn; lia]).
+      assert (Hq : opt_nat_eqb (nth_error (b_rot b) (next_idx (b_idx b) (length (b_rot b)))) (Some t) = true) by (apply opt_nat_eqb_eq; exact Hnth).
+      rewrite Hk, Hq. cbn [andb].
+      eexists; split; [reflexivity|]. split; [|reflexivity]. constructor; cbn [q_rot q_idx q_pf q_pend].
+      * intros lb0 b0 Hb0. rewrite nget_nset.
+        destruct (bal_back _ _ _ _ _ H Hb0) as [[b1 [Hb1 [_ [_ [[Hr|Hr] [Hi|[t1 [r1 [Hk1 Hi]]]]]]]]]|[_ [ts [Hk1 _]]]]; cbn in *; try discriminate.
+        -- destruct (Nat.eqb_spec lb0 lb) as [->|Hne].
+           ++ rewrite Hb' in Hb0. inversion Hb0; subst b0. rewrite Hb in Hb1. inversion Hb1; subst b1. rewrite Hrot'. auto.
+           ++ rewrite Hr, Hi. eapply (r9_rot _ _ HR); eauto.
+        -- inversion Hk1; subst. rewrite Nat.eqb_refl. rewrite Hb in Hb1. inversion Hb1; subst b1. rewrite Hr, Hi. auto.
+      * apply (Gpf (mkM9 (q_rot m) (nset (q_idx m) lb (next_idx (b_idx b) (length (b_rot b)))) (q_pf m) (nset (q_pend m) r (Some t)))); auto; intros; discriminate.
+      * intros r0 p t0 Hp Hc. rewrite nget_nset. destruct (pend_back _ _ _ _ _ _ H Hp Hc) as [Hp0|Hk0]; cbn in *.
+        -- destruct (Nat.eqb_spec r0 r) as [->|Hne].
+           ++ clear - H Hp Hc. step_inv H; proj_simp; rewrite nget_nset_same in Hp; inversion Hp; subst p; cbn in Hc; congruence.
+           ++ eapply (r9_pend _ _ HR); eauto.
+        -- inversion Hk0; subst. rewrite Nat.eqb_refl. reflexivity.
+    + assert (Hb : exists b, nget (bals s) lb = Some b /\ b_rot b = []).
+      { clear - H. step_inv H; eauto. }
+      destruct Hb as [b [Hb Hr]]. destruct (r9_rot _ _ HR _ _ Hb) as [Q1 Q2]. rewrite Q1, Hr.
+      eexists; split; [reflexivity|]. split; [|reflexivity]. constructor; cbn [q_rot q_idx q_pf q_pend].
+      * apply (Grot (mkM9 (q_rot m) (q_idx m) (q_pf m) (nset (q_pend m) r None))); auto; intros; discriminate.
+      * apply (Gpf (mkM9 (q_rot m) (q_idx m) (q_pf m) (nset (q_pend m) r None))); auto; intros; discriminate.
+      * intros r0 p t0 Hp Hc. rewrite nget_nset. destruct (pend_back _ _ _ _ _ _ H Hp Hc) as [Hp0|Hk0]; cbn in *; [|discriminate].
+        destruct (Nat.eqb_spec r0 r) as [->|Hne]; [|eapply (r9_pend _ _ HR); eauto].
+        exfalso. clear - H Hp Hc. step_inv H; proj_simp; rewrite nget_nset_same in Hp; inversion Hp; subst p; discriminate.
+  - (* KRotation *)
+    cbn in Hrf; inversion Hrf; subst pf'. unfold c09_step; cbn [e_k].
+    destruct (step_rotation _ _ _ _ _ _ H) as [b [b' [Hb [Hhs [Hb' [Hrot' Hts']]]]]].
+    assert (Hno : existsb (fun t => nmem t (q_pf m)) healthy = false).
+    { destruct (existsb _ _) eqn:Ex; auto. exfalso. apply existsb_exists in Ex. destruct Ex as [t [Hin Hpf]].
+      apply nmem_In in Hpf. rewrite Hhs in Hin. destruct (healthy_of_In _ _ _ Hin) as [x [Hx Hst]].
+      eapply (r9_pf _ _ HR); eauto. }
+    rewrite Hno. eexists; split; [reflexivity|]. split; [|reflexivity]. constructor; cbn [q_rot q_idx q_pf q_pend].
+    + intros lb0 b0 Hb0. rewrite nget_nset.
+      destruct (bal_back _ _ _ _ _ H Hb0) as [[b1 [Hb1 [_ [_ [[Hr|Hr] [Hi|[t1 [r1 [Hk1 Hi]]]]]]]]]|[_ [ts [Hk1 _]]]]; cbn in *; try discriminate.
+      * destruct (Nat.eqb_spec lb0 lb) as [->|Hne].
+        -- rewrite Hb' in Hb0. inversion Hb0; subst b0. rewrite Hi. split; [congruence|]. eapply (r9_rot _ _ HR); eauto.
+        -- rewrite Hr, Hi. eapply (r9_rot _ _ HR); eauto.
+      * inversion Hr; subst. rewrite Nat.eqb_refl. rewrite Hi. split; auto. eapply (r9_rot _ _ HR); eauto.
+    + apply (Gpf (mkM9 (nset (q_rot m) lb healthy) (q_idx m) (q_pf m) (q_pend m))); auto; intros; discriminate.
+    + apply (Gpend (mkM9 (nset (q_rot m) lb healthy) (q_idx m) (q_pf m) (q_pend m))); auto; intros; discriminate.
+  - (* KClaim *)
+    cbn in Hrf; inversion Hrf; subst pf'. unfold c09_step; cbn [e_k].
+    destruct (step_claim _ _ _ _ _ _ H) as [p [x [Hp [Hc _]]]].
+    rewrite (r9_pend _ _ HR _ _ _ Hp Hc), Nat.eqb_refl.
+    exists m; split; [reflexivity|]. split; [|reflexivity].
+    constructor; [apply Grot|apply Gpf|apply Gpend]; auto; intros; discriminate.
+  - (* KProbeApply *)
+    destruct (step_probe _ _ _ _ _ _ _ _ H) as [x0 [x1 [Hx0 [Hnew [Hx1 Hst1]]]]].
+    unfold c09_step; cbn [e_k]. destruct ok; cbn in Hrf; inversion Hrf; subst pf'.
+    + eexists; split; [reflexivity|]. split; [|reflexivity]. constructor; cbn [q_rot q_idx q_pf q_pend].
+      * apply (Grot (mkM9 (q_rot m) (q_idx m) (nremove t (q_pf m)) (q_pend m))); auto; intros; discriminate.
+      * intros t0 x' Hin Hx. apply nremove_In in Hin. destruct Hin as [Hin Hne].
+        destruct (tgt_back _ _ _ _ _ H Hx) as [[x [Hxx [_ [_ [Hst|[[ok [pv Hk]]|[og Hk]]]]]]]|[_ [? [? [Hk _]]]]]; cbn in *; try discriminate.
+        -- rewrite Hst. eapply (r9_pf _ _ HR); eauto.
+        -- inversion Hk; subst. congruence.
+      * apply (Gpend (mkM9 (q_rot m) (q_idx m) (nremove t (q_pf m)) (q_pend m))); auto; intros; discriminate.
+    + eexists; split; [reflexivity|]. split; [|reflexivity]. constructor; cbn [q_rot q_idx q_pf q_pend].
+      * apply (Grot (mkM9 (q_rot m) (q_idx m) (t :: q_pf m) (q_pend m))); auto; intros; discriminate.
+      * intros t0 x' Hin Hx. destruct (Nat.eq_dec t0 t) as [->|Hne].
+        -- rewrite Hx1 in Hx. inversion Hx; subst x'. rewrite Hst1, Hnew. apply probe_next_false.
+        -- destruct Hin as [Hin|Hin]; [congruence|].
+           destruct (tgt_back _ _ _ _ _ H Hx) as [[x [Hxx [_ [_ [Hst|[[ok [pv Hk]]|[og Hk]]]]]]]|[_ [? [? [Hk _]]]]]; cbn in *; try discriminate.
+           ++ rewrite Hst. eapply (r9_pf _ _ HR); eauto.
+           ++ inversion Hk; subst. congruence.
+      * apply (Gpend (mkM9 (q_rot m) (q_idx m) (t :: q_pf m) (q_pend m))); auto; intros; discriminate.
+  - (* KStateSet *)
+    unfold c09_step; cbn [e_k]. exists m; split; [reflexivity|].
+    assert (Epf : pf' = q_pf m /\ (new = THealthy -> ~ In t (q_pf m))).
+    { cbn in Hrf. destruct new; try (inversion Hrf; split; [reflexivity|discriminate]).
+      destruct (nmem t (q_pf m)) eqn:E; [discriminate|]. inversion Hrf. split; auto. intros _. now apply nmem_false. }
+    destruct Epf as [-> Hnh]. split; [|reflexivity].
+    constructor; [apply Grot; auto; intros; discriminate| |apply Gpend; auto; intros; discriminate].
+    intros t0 x' Hin Hx.
+    destruct (tgt_back _ _ _ _ _ H Hx) as [[x [Hxx [_ [_ [Hst|[[ok [pv Hk]]|[og Hk]]]]]]]|[_ [? [? [Hk _]]]]]; cbn in *; try discriminate.
+    + rewrite Hst. eapply (r9_pf _ _ HR); eauto.
+    + inversion Hk; subst. intros Hh. apply Hnh; auto.
+Qed.
+
+Theorem accepted_c09_ok : forall tr, accepted tr = true -> c09_restore_free tr = true -> c09_ok tr = true.
+Proof.
+  intros tr H Hrf. unfold accepted in H. destruct (run step init tr) as [s|] eqn:E; [|discriminate].
+  unfold c09_restore_free in Hrf. destruct (run rf_step [] tr) as [pfE|] eqn:F; [|discriminate].
+  assert (G : forall tr s0 m0 s1 pf1, Inv s0 -> R9 s0 m0 -> run step s0 tr = Some s1 -> run rf_step (q_pf m0) tr = Some pf1 ->
+              exists m1, run c09_step m0 tr = Some m1).
+  { clear. induction tr as [|e tr IH]; intros s0 m0 s1 pf1 HI HR Hrun Hrf; cbn in *.
+    - eauto.
+    - destruct (step s0 e) as [s2|] eqn:E; [|discriminate].
+      destruct (rf_step (q_pf m0) e) as [pf2|] eqn:F; [|discriminate].
+      destruct (sim9 _ _ _ _ _ HI HR E F) as [m2 [Hm2 [HR2 Hpf2]]]. rewrite Hm2. subst pf2.
+      apply (IH s2 m2 s1 pf1); [eapply inv_step; eauto|exact HR2|exact Hrun|exact Hrf]. }
+  destruct (G _ _ _ _ _ inv_init r9_init E F) as [m1 Hm1]. unfold c09_ok. now rewrite Hm1.
+Qed.
+
